@@ -30,6 +30,10 @@ class Box:
     self.v = v
     self.items = [v, v + 1, v + 2]
     self.bumps = 0
+    self._priv = v * 3          # "private" members are members too
+
+  def _twice(self):
+    return self.v * 2
 
   def get(self):
     return self.v
